@@ -30,6 +30,14 @@ pub fn deg16(a: i32) -> Angle {
     Angle::from_degrees(a as f32 / 16.0)
 }
 
+/// the sweep of an arc / sector descriptor: "sw" in 1/16 degree, or - if "sw" is 0 and "swm" is present - "swm" in 1/1000 degree
+fn sweep_of(d: &Value, sw: i32) -> Angle {
+    match d.get("swm").and_then(|v| v.as_i64()) {
+        Some(m) if sw == 0 && m != 0 => Angle::from_degrees(m as f32 / 1000.0),
+        _ => deg16(sw),
+    }
+}
+
 fn size_json(s: Size) -> Value {
     json!([s.width, s.height])
 }
@@ -61,8 +69,23 @@ impl Shape {
                 size_json(r.corners.top_left), size_json(r.corners.top_right),
                 size_json(r.corners.bottom_right), size_json(r.corners.bottom_left)]}),
             Shape::Triangle(t) => json!({"k":"triangle","v":[pt_json(t.vertices[0]),pt_json(t.vertices[1]),pt_json(t.vertices[2])]}),
-            Shape::Sector(s, a0, sw) => json!({"k":"sector","tl":pt_json(s.top_left),"d":s.diameter,"a0":a0,"sw":sw}),
-            Shape::Arc(s, a0, sw) => json!({"k":"arc","tl":pt_json(s.top_left),"d":s.diameter,"a0":a0,"sw":sw}),
+            // "swm": a sweep too small for the 1/16 degree unit of "sw" (then "sw" is 0), in 1/1000 degree
+            Shape::Sector(s, a0, sw) => {
+                let mut v = json!({"k":"sector","tl":pt_json(s.top_left),"d":s.diameter,"a0":a0,"sw":sw});
+                let swm = (s.angle_sweep.to_degrees() * 1000.0).round() as i32;
+                if *sw == 0 && swm != 0 {
+                    v["swm"] = json!(swm);
+                }
+                v
+            }
+            Shape::Arc(s, a0, sw) => {
+                let mut v = json!({"k":"arc","tl":pt_json(s.top_left),"d":s.diameter,"a0":a0,"sw":sw});
+                let swm = (s.angle_sweep.to_degrees() * 1000.0).round() as i32;
+                if *sw == 0 && swm != 0 {
+                    v["swm"] = json!(swm);
+                }
+                v
+            }
             Shape::Line(l) => json!({"k":"line","s":pt_json(l.start),"e":pt_json(l.end)}),
             Shape::Polyline(v, off) => json!({"k":"polyline","v":v.iter().map(|p| pt_json(*p)).collect::<Vec<_>>(),"off":pt_json(*off)}),
         }
@@ -83,11 +106,11 @@ impl Shape {
             "triangle" => Shape::Triangle(Triangle::new(pt_from(&d["v"][0]), pt_from(&d["v"][1]), pt_from(&d["v"][2]))),
             "sector" => {
                 let (a0, sw) = (i(&d["a0"]) as i32, i(&d["sw"]) as i32);
-                Shape::Sector(Sector::new(pt_from(&d["tl"]), i(&d["d"]) as u32, deg16(a0), deg16(sw)), a0, sw)
+                Shape::Sector(Sector::new(pt_from(&d["tl"]), i(&d["d"]) as u32, deg16(a0), sweep_of(d, sw)), a0, sw)
             }
             "arc" => {
                 let (a0, sw) = (i(&d["a0"]) as i32, i(&d["sw"]) as i32);
-                Shape::Arc(Arc::new(pt_from(&d["tl"]), i(&d["d"]) as u32, deg16(a0), deg16(sw)), a0, sw)
+                Shape::Arc(Arc::new(pt_from(&d["tl"]), i(&d["d"]) as u32, deg16(a0), sweep_of(d, sw)), a0, sw)
             }
             "line" => Shape::Line(Line::new(pt_from(&d["s"]), pt_from(&d["e"]))),
             "polyline" => Shape::Polyline(
